@@ -8,8 +8,8 @@
              literal - is DROPPED, no error is raised);
      LexErr  PysmtSyntaxError("Unknown escaping in quoted symbol"), raised lazily when the consumer
              reaches that point of the stream.
-   Quirks kept: only space, newline and tab separate tokens (carriage return, form feed are token
-   characters); a quoted symbol |abc| yields its CONTENT (so |(| yields the same token as a
+   Quirks kept: only space, newline, tab and carriage return separate tokens (form feed is a token
+   character); a quoted symbol |abc| yields its CONTENT (so |(| yields the same token as a
    parenthesis and |abc| the same as abc); inside bars only \| and \\ are accepted after a
    backslash and the backslash is dropped; a string literal yields its text INCLUDING the
    surrounding quotes and the doubled inner quotes; a comment runs to the next newline.
@@ -29,7 +29,7 @@ Definition c_semi : ascii := ";".
 Definition c_lp : ascii := "(".
 Definition c_rp : ascii := ")".
 
-Definition is_space (c : ascii) : bool := (c =? " ") || (c =? c_nl) || (c =? c_tab).
+Definition is_space (c : ascii) : bool := (c =? " ") || (c =? c_nl) || (c =? c_tab) || (c =? c_cr).
 Definition is_separator (c : ascii) : bool := (c =? c_lp) || (c =? c_rp) || (c =? c_bar) || (c =? c_dq).
 Definition is_special (c : ascii) : bool := is_space c || is_separator c || (c =? c_semi).
 
@@ -89,3 +89,48 @@ Fixpoint lex_go (m : mode) (cs : list ascii) {struct cs} : list string * lex_end
 
 Definition lex (cs : list ascii) : list string * lex_end := lex_go MTop cs.
 Definition lex_string (s : string) : list string * lex_end := lex (list_ascii_of_string s).
+
+(* The same generator, with every token paired with the characters that follow it in the source.
+   _enter_annotation reads a parenthesised attribute value with raw_read, i.e. directly from the
+   character stream after the "(" token, counting parentheses on characters; the reader model needs
+   the rest of the source after such a token to do the same (models/SmtParser.v, skip_raw). *)
+Definition emit_src (o : option string) (rest : list ascii) (r : list (string * list ascii) * lex_end)
+  : list (string * list ascii) * lex_end :=
+  match o with Some t => ((t, rest) :: fst r, snd r) | None => r end.
+
+Fixpoint lex_src_go (m : mode) (cs : list ascii) {struct cs} : list (string * list ascii) * lex_end :=
+  match cs with
+  | [] => ([], LexEof)
+  | c :: r =>
+      match m with
+      | MTop => let (m', o) := top_step c in emit_src o r (lex_src_go m' r)
+      | MTok acc =>
+          if is_special c
+          then emit_src (Some (tok_of acc)) r (let (m', o) := top_step c in emit_src o r (lex_src_go m' r))
+          else lex_src_go (MTok (c :: acc)) r
+      | MQuo acc =>
+          if c =? c_bar then emit_src (Some (tok_of acc)) r (lex_src_go MTop r)
+          else if c =? c_bs then lex_src_go (MQuoEsc acc) r
+          else lex_src_go (MQuo (c :: acc)) r
+      | MQuoEsc acc =>
+          if (c =? c_bar) || (c =? c_bs) then lex_src_go (MQuo (c :: acc)) r
+          else ([], LexErr)
+      | MStr acc odd =>
+          if negb (c =? c_dq) && odd
+          then emit_src (Some (tok_of acc)) r (let (m', o) := top_step c in emit_src o r (lex_src_go m' r))
+          else lex_src_go (MStr (c :: acc) (if c =? c_dq then negb odd else odd)) r
+      | MCom => if c =? c_nl then lex_src_go MTop r else lex_src_go MCom r
+      end
+  end.
+Definition lex_src (cs : list ascii) : list (string * list ascii) * lex_end := lex_src_go MTop cs.
+
+(* raw_read until the parenthesis opened just before [cs] is closed: the characters after it;
+   None = the stream ends first (StopIteration) *)
+Fixpoint skip_raw (cs : list ascii) (depth : nat) : option (list ascii) :=
+  match cs with
+  | [] => None
+  | c :: r =>
+      if c =? c_lp then skip_raw r (S depth)
+      else if c =? c_rp then match depth with O => Some r | S d => skip_raw r d end
+      else skip_raw r depth
+  end.
